@@ -14,7 +14,7 @@ package flip
 
 //@ func (g *gen) genFuncFor(ftyp *types.Signature) (err error)
 //@ param ftyp: minparams=2
-//@ name-variants
+// parameter names are always present here: the registering Add renames blank and empty names (derive.RenameBlankIdentifier)
 //@ emits: decls
 //@ serves: flip len=1 ftyp=typs[0]
 //@ o-sig: (f $ftyp) (r func())
